@@ -307,6 +307,10 @@ func (in *LinkInst) raw(op, p, t, d string) (o LinkObs) {
 		err = os.Symlink(filepath.Join(in.root, t), full)
 	case "mkdir":
 		err = os.Mkdir(full, 0755)
+	case "mkdirall":
+		err = os.MkdirAll(full, 0755)
+	case "removeall":
+		err = os.RemoveAll(full)
 	case "remove":
 		err = os.Remove(full)
 	case "writefile":
@@ -354,6 +358,10 @@ func (in *LinkInst) viaHelpers(op, p, t, d string) (o LinkObs) {
 		err = hackpadfs.Symlink(in.fs, t, p)
 	case "mkdir":
 		err = hackpadfs.Mkdir(in.fs, p, 0755)
+	case "mkdirall":
+		err = hackpadfs.MkdirAll(in.fs, p, 0755)
+	case "removeall":
+		err = hackpadfs.RemoveAll(in.fs, p)
 	case "remove":
 		err = hackpadfs.Remove(in.fs, p)
 	case "writefile":
@@ -471,7 +479,11 @@ func (in *LinkInst) CheckResult(call, tr *tla.Value, obsAny any) []engine.Div {
 			if op == "symlink" {
 				add(in.cfg.PropErr, "errtype exp=link got=path")
 			} else if e.Path != p {
-				add(in.cfg.PropErr, "errpath "+pathClass(e.Path, p))
+				// MkdirAll names the ancestor it failed at, RemoveAll possibly an entry below the name (as os does)
+				related := (op == "mkdirall" && strings.HasPrefix(p, e.Path+"/")) || (op == "removeall" && (strings.HasPrefix(e.Path, p+"/") || strings.HasPrefix(p, e.Path+"/")))
+				if !related {
+					add(in.cfg.PropErr, "errpath "+pathClass(e.Path, p))
+				}
 			}
 		case *hackpadfs.LinkError:
 			if op != "symlink" {
